@@ -5,11 +5,23 @@
    model).  The run-time half (CallFunction pushes a frame and runs the code at the label of the pointer's
    handle, parameter binding, Return) is proved on the VM model in Cao.VmCallProofs and linked to the
    compile-time half in Cao.VmCallLink (section "run-time half" at the end of this file); the C08
-   correspondence stream checks the same on the real Vm. *)
+   correspondence stream checks the same on the real Vm.
+   Last section: the FunctionPointer / CallFunction pair of every Call card (at any nesting) is ADJACENT in the
+   returned program and carries the designated handle / arity (C08_program_call_layout, C08_call_pair_in_program,
+   with the run-time half: C08_call_card_executes_designated_body - Cao.CompilerCallPair, CompilerCallPairProg,
+   VmCallPairLink), and the innermost locals list is empty where the body of a function or closure starts
+   (C08_function_body_starts_without_locals, C08_card_keeps_scopes, C08_closure_body_starts_without_locals,
+   C08_param_binding_compiled - Cao.CompilerLocalsEmpty, CompilerLocalsEmptyProg).
+   Still open: a callee value that reaches CallFunction through other instructions than a Function card
+   (DynamicCall of an arbitrary expression: C08_vm_call_function applies to whatever function object is popped);
+   the end-to-end statement "running the compiled Call card returns what the body of the designated function
+   computes" is C01's simulation, not restated here; N-C08-3 (a static call of `main`) stays a finding. *)
 From Coq Require Import List NArith ZArith.
 From Cao Require Import ListUtil Bits CardAst Bytecode Compiler StdlibGen ResolveSpec CompilerResolve ResolveProofs
-  ResolveTree CompilerProofs CompilerLabels CompilerCalls C08Examples C15Link.
-From Cao Require Stacks Vm VmProofs VmUpvalueProofs C04VmProofs C01SimVm VmCallProofs VmCallLink.
+  ResolveTree CompilerProofs CompilerLabels CompilerCalls C08Examples C15Link
+  CompilerCallPair CompilerCallPairProg CompilerLocalsEmpty CompilerLocalsEmptyProg.
+From Cao Require CardEdit CompilerWf Stacks Vm VmProofs VmNativeProofs VmUpvalueProofs C04VmProofs C01SimVm VmCallProofs VmCallLink
+  VmCallPairLink C08PairWitness.
 Import ListNotations.
 
 (* ---- resolution never panics or diverges; its result is a declared function ---- *)
@@ -485,8 +497,9 @@ Print Assumptions C08_vm_params_are_locals.
    is compiled to ReadLocalVar (n - 1 - m); the arity the jump table / FunctionPointer carry is n.
    VM side: the call of a function object of arity n with k >= n values vals on top of low: ReadLocalVar (n-1-m),
    wherever it lies, executed in the callee's frame while the stack begins with low ++ vals, pushes vals[k-1-m].
-   (That the locals list IS empty where compile_other / a closure body starts - it is [[]] initially and each
-   scope_end pops what the function declared - is not proved here.) *)
+   (That the locals list IS empty where compile_other / a closure body starts is
+   C08_function_body_starts_without_locals / C08_closure_body_starts_without_locals below; C08_param_binding_compiled
+   is this theorem without the two hypotheses on c0.) *)
 Theorem C08_param_binding :
   forall (f : function_ir) c0 c1 m,
     cs_locals c0 <> [] -> hd [] (cs_locals c0) = [] -> NoDup (fi_args f) ->
@@ -530,11 +543,10 @@ Print Assumptions C08_param_binding.
          parameters, cards, module path, imports), so with at least ar values on the stack and a free call frame
          the CallFunction continues exactly there, in a new frame {src = address of the CallFunction, dst = the
          next instruction, offset = height - ar}.
-   Not covered: that every Call card yields such an adjacent pair IN THE RETURNED PROGRAM (C08_call_card_emits_pair
-   below: process_card of a Call card appends the two next to each other; that the rest of the compilation only
-   prepends and patches jump operands is not proved in this form - C08_call_resolves has the pair adjacent in
-   the call skeleton), and a callee value that reaches CallFunction through other instructions (DynamicCall of
-   an expression): there C08_vm_call_function applies to whatever function object is popped. *)
+   That every Call card yields such an adjacent pair IN THE RETURNED PROGRAM is C08_call_pair_in_program below, and
+   C08_call_card_executes_designated_body is this theorem with the hypothesis discharged for Call cards.
+   Not covered: a callee value that reaches CallFunction through other instructions (DynamicCall of an
+   expression): there C08_vm_call_function applies to whatever function object is popped. *)
 Theorem C08_call_executes_designated_body :
   forall F bld reenter M o B,
     compile M o = COk B ->
@@ -661,3 +673,259 @@ Theorem C08_example_call_static :
     end.
 Proof. exact VmCallLink.ex_bind_static. Qed.
 Print Assumptions C08_example_call_static.
+
+(* ================================================================== *)
+(* ---- the call pair in the RETURNED program; locals at the start of a function body ---- *)
+(* ================================================================== *)
+(* Vocabulary (CompilerCallPair / CompilerCallPairProg): card_pitems c = ResolveSpec.card_items c with the two items
+   of a Call card kept together: PPair name for a Call card, PPtr name for a Function card, PCall for the CallFunction
+   of a DynamicCall card; site_pitems st = the items of the cards of tree function st, each paired with st;
+   subcard x c = x is c or a descendant of c (CardEdit.iter_children = Card::iter_children, transitively);
+   erase i = i with the operand of Goto / GotoIfTrue / GotoIfFalse set to 0 (every other instruction unchanged);
+   layout ok items l = l is  quiet* seg_1 quiet* ... seg_n quiet*  with ok item_k seg_k and every "quiet"
+   instruction neither a FunctionPointer nor a CallFunction; site_seg_ok root (st, item) seg = seg is
+   [FunctionPointer (Handle pos) ar; CallFunction] for PPair name, [FunctionPointer (Handle pos) ar] for PPtr name -
+   (pos, ar) = site_target root st name, the specification's answer - and [CallFunction] for PCall. *)
+
+(* C08_program_call_layout: the instruction list of a compiled module, function by function in compile order and
+   card by card in compile order.  The compiler touches its code buffer only by appending an instruction and by
+   rewriting the operand of a jump (patch_jump_here); so nothing is ever inserted between the two instructions a
+   Call card appends.  The same list has C08_call_resolves's call skeleton. *)
+Theorem C08_program_call_layout :
+  forall M o B,
+    compile M o = COk B ->
+    module_names_dotfree (with_std std_module M) = true ->
+    exists is mi,
+      p_bytecode B = encode is /\
+      main_index (m_functions M) 0 = Some mi /\
+      Forall2 (site_item_ok (with_std std_module M))
+              (flat_map site_items (swap0 (tree_functions (with_std std_module M) []) mi))
+              (filter is_call_instr is) /\
+      layout (site_seg_ok (with_std std_module M))
+             (flat_map site_pitems (swap0 (tree_functions (with_std std_module M) []) mi))
+             (map erase is).
+Proof. exact compile_call_layout. Qed.
+Print Assumptions C08_program_call_layout.
+
+(* C08_call_pair_in_program: (a) of the "Not covered" note above.  In the instruction list of the returned program,
+   for the k-th item of the compile order when it is a Call card of function st - and hence for every Call card
+   `name(args)` at any nesting below a card of any function st of the tree (with_std std_module M) -
+   FunctionPointer (Handle pos) ar is IMMEDIATELY followed by CallFunction, where (pos, ar) is what the
+   specification designates for `name` from st's module with st's imports; and this FunctionPointer is the
+   compilation of that very reference: it is the instruction C08_call_resolves pairs with (st, CPtr name). *)
+Theorem C08_call_pair_in_program :
+  forall M o B,
+    compile M o = COk B ->
+    module_names_dotfree (with_std std_module M) = true ->
+    let root := with_std std_module M in
+    exists is mi,
+      p_bytecode B = encode is /\
+      main_index (m_functions M) 0 = Some mi /\
+      Forall2 (site_item_ok root) (flat_map site_items (swap0 (tree_functions root []) mi)) (filter is_call_instr is) /\
+      (forall k st name,
+         nth_error (flat_map site_pitems (swap0 (tree_functions root []) mi)) k = Some (st, PPair name) ->
+         exists a b pos arn,
+           is = a ++ IFunctionPointer (handle_from_u64 (N.of_nat pos)) (N.of_nat arn mod two32)%N :: ICallFunction :: b /\
+           site_target root st name = Some (pos, arn) /\
+           nth_error (flat_map site_items (swap0 (tree_functions root []) mi)) (length (filter is_call_instr a))
+             = Some (st, CPtr name)) /\
+      (forall st c name args,
+         In st (tree_functions root []) -> In c (f_cards (fs_fn st)) -> subcard (CCall name args) c ->
+         exists a b pos arn,
+           is = a ++ IFunctionPointer (handle_from_u64 (N.of_nat pos)) (N.of_nat arn mod two32)%N :: ICallFunction :: b /\
+           site_target root st name = Some (pos, arn) /\
+           nth_error (flat_map site_items (swap0 (tree_functions root []) mi)) (length (filter is_call_instr a))
+             = Some (st, CPtr name)).
+Proof. exact compile_call_pair_in_program. Qed.
+Print Assumptions C08_call_pair_in_program.
+
+(* C08_call_card_executes_designated_body: C08_call_executes_designated_body with its hypothesis "wherever the pair
+   occurs" discharged for Call cards.  For every Call card `name(args)` at any nesting in any function st of the
+   tree there is an address ip = bytes a in the returned program at which the pair lies, h / ar are the handle
+   (position) and arity of the function the specification designates for `name` from st, and (ii) the two dispatches
+   and (iii) the continuation at the first byte of the designated function's code hold there. *)
+Local Open Scope N_scope.
+Theorem C08_call_card_executes_designated_body :
+  forall F bld reenter M o B,
+  compile M o = COk B ->
+  module_names_dotfree (with_std std_module M) = true ->
+  let root := with_std std_module M in
+  let P := to_vm B in
+  exists is mi,
+    p_bytecode B = encode is /\ main_index (m_functions M) 0 = Some mi /\
+    forall st c name args,
+      In st (tree_functions root []) -> In c (f_cards (fs_fn st)) -> subcard (CCall name args) c ->
+      exists a b pos arn,
+        let h := handle_from_u64 (N.of_nat pos) in
+        let ar := N.of_nat arn mod two32 in
+        let ip := CompilerWf.bytes a in
+        is = a ++ IFunctionPointer h ar :: ICallFunction :: b /\
+        site_target root st name = Some (pos, arn) /\
+        nth_error (flat_map site_items (swap0 (tree_functions root []) mi)) (length (filter is_call_instr a))
+          = Some (st, CPtr name) /\
+        (* (ii) the two dispatches *)
+        (forall s top rest,
+           VmProofs.stack_ok s -> (S (length (VmProofs.stack_of s)) < VmUpvalueProofs.cap s)%nat ->
+           Vm.st_calls s = top :: rest ->
+           let n := length (VmProofs.stack_of s) in
+           let fa := N.of_nat (length (Vm.st_heap s)) in
+           let s1 := VmCallProofs.pushed (Vm.set_heap s (Vm.st_heap s ++ [Vm.OFun h ar])) (Vm.VObj fa) in
+           let s2 := VmCallProofs.popped s1 n in
+           Vm.step F bld P reenter ip s = Vm.SNext (ip + 9) s1 /\
+           Vm.step F bld P reenter (ip + 9) s1 = VmCallProofs.call_result P (ip + 9) s2 n h ar None top rest /\
+           VmProofs.stack_ok s2 /\ VmProofs.stack_of s2 = VmProofs.stack_of s) /\
+        (* (iii) for every target but `main`: labels[h] is the first byte of the code of the designated function *)
+        (pos <> mi -> label_keys_distinct_module M (o_recursion_limit o) = true ->
+         exists fid tgt f before body rest',
+           spec_resolve root (fs_path st) (fs_imports st) name = SFound fid /\
+           nth_error (tree_functions root []) pos = Some tgt /\
+           fs_path tgt = fst fid /\ fs_name tgt = snd fid /\ function_at root fid = Some (fs_fn tgt) /\
+           ir_of (N.of_nat pos) tgt f /\
+           p_bytecode B = encode before ++ encode body ++ encode rest' /\
+           (exists c1 c2, compile_other f c1 = ROk tt c2 /\ rev (cs_code c1) = before /\
+                          rev (cs_code c2) = before ++ body) /\
+           Vm.assoc h (Vm.p_labels P) = Some (N.of_nat (length (encode before))) /\
+           forall s top rest,
+             VmProofs.stack_ok s -> (S (length (VmProofs.stack_of s)) < VmUpvalueProofs.cap s)%nat ->
+             Vm.st_calls s = top :: rest ->
+             (ar <= N.of_nat (length (VmProofs.stack_of s)))%N -> (S (length rest) < Vm.call_stack_size)%nat ->
+             let n := length (VmProofs.stack_of s) in
+             let fa := N.of_nat (length (Vm.st_heap s)) in
+             let s1 := VmCallProofs.pushed (Vm.set_heap s (Vm.st_heap s ++ [Vm.OFun h ar])) (Vm.VObj fa) in
+             Vm.step F bld P reenter (ip + 9) s1 =
+               Vm.SNext (N.of_nat (length (encode before)))
+                 (Vm.set_calls (VmCallProofs.popped s1 n)
+                    (VmCallProofs.callee_frame (ip + 9) n ar None :: VmCallProofs.caller_frame (ip + 9) top :: rest))).
+Proof. exact VmCallPairLink.call_card_executes_designated_body. Qed.
+Print Assumptions C08_call_card_executes_designated_body.
+Local Close Scope N_scope.
+
+(* C08_function_body_starts_without_locals: (b) of the note at C08_param_binding.  In a successful run of compile_ir on
+   fs = pre ++ g :: post, the state c0 in which g's parameters are declared - reached by before_body: stage 1, then
+   compile_main of the first function and compile_others of the rest of pre, then g's own prologue (index, handle,
+   label, scope_begin, namespace / imports), or main's prologue when g is the first function - has
+   cs_locals = [[]] and scope depth 1; from c0 the parameters are declared and the cards compiled. *)
+Theorem C08_function_body_starts_without_locals :
+  forall fs d s_end pre g post,
+    compile_ir fs (init_state d) = ROk tt s_end -> fs = pre ++ g :: post ->
+    exists c0 c1 c2,
+      before_body fs pre g (init_state d) = ROk tt c0 /\
+      add_locals (rev (fi_args g)) c0 = ROk tt c1 /\
+      process_cards (fi_cards g) 0 c1 = ROk tt c2 /\
+      cs_locals c0 = [[]] /\ cs_depth c0 = [1%Z] /\ cs_ns c0 = fi_ns g /\ cs_imports c0 = fi_imports g.
+Proof. exact function_body_starts_without_locals. Qed.
+Print Assumptions C08_function_body_starts_without_locals.
+
+(* ... because every card keeps the scope discipline: from a state whose levels (cs_depth, cs_locals) satisfy
+   scopes_ok - depth >= 0, every local declared at a depth >= 1, no locals at depth 0 - and whose innermost depth is
+   >= 1, a successful process_card ends in such a state with the same depths (each scope_begin is matched by a
+   scope_end, each compile_begin by a compile_end); the function's final scope_end, back to depth 0, pops
+   every local. *)
+Theorem C08_card_keeps_scopes :
+  forall c d ds s s',
+    (1 <= d)%Z -> scopes_ok s -> cs_depth s = d :: ds -> process_card c s = ROk tt s' ->
+    scopes_ok s' /\ cs_depth s' = d :: ds.
+Proof. exact card_keeps_scopes. Qed.
+Print Assumptions C08_card_keeps_scopes.
+
+(* a closure body, in ANY state: the prologue of a Closure card (label, jump over the body, compile_begin - which
+   pushes a fresh, empty locals list -, the closure's label, scope_begin) ends in a state whose innermost locals
+   list is empty; there the parameters are declared.  (C08_param_binding applies to c0 with any f whose fi_args
+   are the closure's parameters.) *)
+Theorem C08_closure_body_starts_without_locals :
+  forall args cards s s',
+    process_card (CClosure args cards) s = ROk tt s' ->
+    exists c0 c1, closure_prologue s = ROk tt c0 /\ add_locals (rev args) c0 = ROk tt c1 /\
+                  cs_locals c0 = [] :: cs_locals s /\ cs_ns c0 = cs_ns s /\ cs_imports c0 = cs_imports s.
+Proof. exact closure_body_starts_without_locals. Qed.
+Print Assumptions C08_closure_body_starts_without_locals.
+
+(* C08_param_binding_compiled: C08_param_binding for every function g of a compiled module, without the hypotheses
+   on the locals: c0 is the state of C08_function_body_starts_without_locals. *)
+Local Open Scope N_scope.
+Theorem C08_param_binding_compiled :
+  forall M o B fs pre (g : function_ir) post m,
+  compile M o = COk B ->
+  into_ir_stream M (o_recursion_limit o) = inr fs -> fs = pre ++ g :: post ->
+  NoDup (fi_args g) -> (m < length (fi_args g))%nat ->
+  exists c0 c1 c2,
+    before_body fs pre g (init_state (o_debug o)) = ROk tt c0 /\
+    add_locals (rev (fi_args g)) c0 = ROk tt c1 /\
+    process_cards (fi_cards g) 0 c1 = ROk tt c2 /\
+    cs_locals c0 = [[]] /\ cs_ns c0 = fi_ns g /\ cs_imports c0 = fi_imports g /\
+  let n := length (fi_args g) in
+  let p := nth m (fi_args g) [] in
+  let j := N.of_nat (n - 1 - m) in
+  N.of_nat n mod two32 = N.of_nat n /\
+  resolve_var p c1 = ROk (VLocal j) c1 /\
+  (~ In c_dot p -> read_var_card p c1 = push_instr (IReadLocalVar j) c1) /\
+  forall F bld P reenter ip0 s low vals a (is_clo : bool) h ups top rest pos,
+    C04VmProofs.opcode_at P ip0 = 11 -> VmProofs.stack_ok s ->
+    VmProofs.stack_of s = (low ++ vals) ++ [Vm.VObj a] ->
+    Vm.hget (Vm.st_heap s) a = Some (VmNativeProofs.callee_obj is_clo h (N.of_nat n) ups) ->
+    Vm.st_calls s = top :: rest ->
+    (n <= length vals)%nat -> (S (length rest) < Vm.call_stack_size)%nat -> Vm.assoc h (Vm.p_labels P) = Some pos ->
+    let fr := VmCallProofs.callee_frame ip0 (length (low ++ vals)) (N.of_nat n) (if is_clo then Some a else None) in
+    Vm.step F bld P reenter ip0 s =
+      Vm.SNext pos (Vm.set_calls (VmCallProofs.popped s (length (low ++ vals)))
+                      (fr :: VmCallProofs.caller_frame ip0 top :: rest)) /\
+    forall x cs tmp ip,
+      Vm.st_calls x = fr :: cs -> VmProofs.stack_ok x -> VmProofs.stack_of x = low ++ vals ++ tmp ->
+      (S (length (VmProofs.stack_of x)) < VmUpvalueProofs.cap x)%nat ->
+      C01SimVm.code_at P ip (IReadLocalVar j) ->
+      Vm.step F bld P reenter ip x =
+        Vm.SNext (ip + 5) (VmCallProofs.pushed x (nth (length vals - 1 - m) vals Vm.VNil)).
+Proof. exact VmCallPairLink.param_binding_compiled. Qed.
+Print Assumptions C08_param_binding_compiled.
+Local Close Scope N_scope.
+
+(* ---- example: f(a, b) = [ga := a; gb := b; return a - b];  g() = [return 5];
+               main = [x := 7; r := f(g(), 2); gx := x]  (C08PairWitness) ---- *)
+(* the hypotheses of C08_call_pair_in_program / C08_call_card_executes_designated_body for the outer call and for
+   the call nested in its argument list, the targets, and the two pairs at bytes 14/23 and 33/42 *)
+Theorem C08_example_nested_call_pairs :
+  let root := with_std std_module C08PairWitness.ex_nested_module in
+  module_names_dotfree root = true /\
+  label_keys_distinct_module C08PairWitness.ex_nested_module 64 = true /\
+  In C08PairWitness.nested_site (tree_functions root []) /\
+  In (CSetGlobalVar VmCallLink.x_r C08PairWitness.nested_call) (f_cards (fs_fn C08PairWitness.nested_site)) /\
+  subcard C08PairWitness.nested_call (CSetGlobalVar VmCallLink.x_r C08PairWitness.nested_call) /\
+  subcard (CCall VmCallLink.x_g []) (CSetGlobalVar VmCallLink.x_r C08PairWitness.nested_call) /\
+  site_target root C08PairWitness.nested_site VmCallLink.x_f = Some (1%nat, 2%nat) /\
+  site_target root C08PairWitness.nested_site VmCallLink.x_g = Some (2%nat, 0%nat) /\
+  exists B, compile C08PairWitness.ex_nested_module default_options = COk B /\
+    match decode (p_bytecode B) with
+    | Some l => In (14%nat, IFunctionPointer (handle_from_u64 2) 0) l /\ In (23%nat, ICallFunction) l /\
+                In (33%nat, IFunctionPointer (handle_from_u64 1) 2) l /\ In (42%nat, ICallFunction) l
+    | None => False
+    end.
+Proof. exact C08PairWitness.ex_nested_call_pairs. Qed.
+Print Assumptions C08_example_nested_call_pairs.
+
+(* the hypotheses of C08_function_body_starts_without_locals / C08_param_binding_compiled for f *)
+Theorem C08_example_nested_param_hyps :
+  exists B fs pre g post,
+    compile C08PairWitness.ex_nested_module default_options = COk B /\
+    into_ir_stream C08PairWitness.ex_nested_module (o_recursion_limit default_options) = inr fs /\
+    fs = pre ++ g :: post /\ length pre = 1%nat /\
+    fi_name g = VmCallLink.x_f /\ fi_args g = [VmCallLink.x_pa; VmCallLink.x_pb] /\ NoDup (fi_args g) /\
+    (1 < length (fi_args g))%nat.
+Proof. exact C08PairWitness.ex_nested_param_hyps. Qed.
+Print Assumptions C08_example_nested_param_hyps.
+
+(* at run time: a = 2 (the last argument), b = g() = 5, r = 2 - 5; the caller's local is intact *)
+Theorem C08_example_nested_run :
+  forall F bld, VmCallLink.run_example F bld C08PairWitness.ex_nested_module =
+    Some (Vm.OOk, [Some (Vm.VInt 2); Some (Vm.VInt 5); Some (Vm.VInt (-3)); Some (Vm.VInt 7)], []).
+Proof. exact C08PairWitness.ex_nested_run. Qed.
+Print Assumptions C08_example_nested_run.
+
+(* the hypotheses of C08_card_keeps_scopes: a Repeat card with a loop variable whose body assigns a new variable,
+   compiled in the state of a function body (one level at depth 1, no locals) *)
+Theorem C08_example_card_keeps_scopes :
+  let s := set_scopes [[]] [[]] [1%Z] (init_state true) in
+  let c := CRepeat (Some VmCallLink.x_x) (CScalarInt 3) (CSetVar VmCallLink.x_r (CReadVar VmCallLink.x_x)) in
+  scopes_ok s /\ cs_depth s = [1%Z] /\
+  exists s', process_card c s = ROk tt s' /\ cs_depth s' = [1%Z] /\ cs_locals s' = [[]].
+Proof. exact C08PairWitness.ex_card_keeps_scopes. Qed.
+Print Assumptions C08_example_card_keeps_scopes.
